@@ -5,7 +5,8 @@
    (here: for the control flow before the repairs 3de556b / fe25b5c, kept as regression witnesses). *)
 From Coq Require Import List Arith ZArith QArith Reals Bool Lia.
 From TLV Require Import Base.Shape Base.Tensor Base.RSum Model.Structure Proofs.StructureProofs Proofs.StructureProofs2
-  Proofs.StructureProofs3 Proofs.StructureProofs4 Proofs.StructureProofsQ Proofs.StructureProofsR Proofs.StructureNormR.
+  Proofs.StructureProofs3 Proofs.StructureProofs4 Proofs.StructureProofsQ Proofs.StructureProofsR Proofs.StructureNormR
+  Base.BigSum Proofs.StructureConj Proofs.StructureConjR Model.StructureHooi Proofs.StructureHooiProofs Proofs.StructureHooiConj.
 From TLV Require Import Model.StructureQ.
 Import ListNotations.
 Local Open Scope nat_scope.
@@ -407,6 +408,195 @@ Proof. exact cprojection_ok_sound. Qed.
 Print Assumptions C08_cprojection_ok_sound.
 Example C08_cproject_conj_ex : cproject_entry [1] [1] [(0, 1)%Q] [[(0, 1)%Q]] 0 = (1, 0)%Q.   (* i * conj(i) = 1, not i * i = -1 *)
 Proof. exact cproject_conj_ex. Qed.
+
+(* ================================================================== Tucker canonical form over a ring with conjugation *)
+(* K: any commutative ring (ring_theory) with a conjugation conj (is_conj: additive, multiplicative, involutive).  Real data: K = R,
+   conj = id; complex data: K = C = R x R (Examples below).  A factor U (m x k) has unitary columns when U^H U = I_k
+   (sum_i conj(U i a) * U i b = delta a b).  Tensors of EVERY order are functions list nat -> K; for a list of factors fs (mode k:
+   shape_k x ranks_k):   trec ranks fs G = G x_0 U_0 x_1 U_1 ...      (tucker_to_tensor)
+                         tproj shape fs X = X x_0 U_0^H x_1 U_1^H ... (multi_mode_dot(X, factors, transpose=True): CONJUGATE transpose)
+   unitary_all shape ranks fs: every factor has unitary columns.  All proofs are inductions over the list of modes. *)
+
+(* U[:, :r] and any injective selection of columns of a matrix with unitary columns has unitary columns (HOOI keeps the leading
+   rank_k left singular vectors; truncated_svd truncates to min(rank_k, I_k) columns) *)
+Theorem C08_unitary_cols_truncate : forall (K : Type) (k0 k1 : K) (kadd kmul : K -> K -> K) (conj : K -> K) m k r U,
+  unitary_cols K k0 k1 kadd kmul conj m k U -> r <= k -> unitary_cols K k0 k1 kadd kmul conj m r U.
+Proof. exact unitary_cols_truncate. Qed.
+Print Assumptions C08_unitary_cols_truncate.
+Theorem C08_unitary_cols_select : forall (K : Type) (k0 k1 : K) (kadd kmul : K -> K -> K) (conj : K -> K) m k k' U (sel : nat -> nat),
+  unitary_cols K k0 k1 kadd kmul conj m k U -> (forall a, a < k' -> sel a < k) ->
+  (forall a b, a < k' -> b < k' -> sel a = sel b -> a = b) -> unitary_cols K k0 k1 kadd kmul conj m k' (fun i a => U i (sel a)).
+Proof. exact unitary_cols_select. Qed.
+Print Assumptions C08_unitary_cols_select.
+(* the identity (what partial_tucker leaves on the modes it does not decompose) has unitary columns *)
+Theorem C08_unitary_identity : forall (K : Type) (k0 k1 : K) (kadd kmul ksub : K -> K -> K) (kopp : K -> K),
+  ring_theory k0 k1 kadd kmul ksub kopp eq -> forall conj, is_conj kadd kmul conj ->
+  forall d, unitary_cols K k0 k1 kadd kmul conj d d (kdelta K k0 k1).
+Proof. exact unitary_identity_b. Qed.
+Print Assumptions C08_unitary_identity.
+
+(* for factors with unitary columns the projection is a LEFT INVERSE of the reconstruction: a core is recovered from the tensor it
+   represents by X x_k U_k^H -- so "core = projection of the data onto the factors" determines the core (every order) *)
+Theorem C08_tucker_core_left_inverse : forall (K : Type) (k0 k1 : K) (kadd kmul ksub : K -> K -> K) (kopp : K -> K),
+  ring_theory k0 k1 kadd kmul ksub kopp eq -> forall (conj : K -> K) shape ranks fs,
+  unitary_all K k0 k1 kadd kmul conj shape ranks fs -> forall G jdx, inb ranks jdx ->
+  tproj K k0 k1 kadd kmul conj shape fs (trec K k0 k1 kadd kmul ranks fs G) jdx = G jdx.
+Proof. exact tproj_trec. Qed.
+Print Assumptions C08_tucker_core_left_inverse.
+(* the projection with the CONJUGATE transpose is the adjoint of the reconstruction: <trec H, X> = <H, tproj X> (arbitrary factors) *)
+Theorem C08_tucker_projection_adjoint : forall (K : Type) (k0 k1 : K) (kadd kmul ksub : K -> K -> K) (kopp : K -> K),
+  ring_theory k0 k1 kadd kmul ksub kopp eq -> forall conj, is_conj kadd kmul conj -> forall shape ranks fs H X,
+  tinner K k0 kadd kmul conj shape (trec K k0 k1 kadd kmul ranks fs H) X =
+  tinner K k0 kadd kmul conj ranks H (tproj K k0 k1 kadd kmul conj shape fs X).
+Proof. exact adjoint_b. Qed.
+Print Assumptions C08_tucker_projection_adjoint.
+(* the factors do not affect the norm of the reconstructed tensor (the comment in partial_tucker, as a theorem) *)
+Theorem C08_tucker_reconstruction_isometry : forall (K : Type) (k0 k1 : K) (kadd kmul ksub : K -> K -> K) (kopp : K -> K),
+  ring_theory k0 k1 kadd kmul ksub kopp eq -> forall conj, is_conj kadd kmul conj -> forall shape ranks fs G G',
+  unitary_all K k0 k1 kadd kmul conj shape ranks fs ->
+  tinner K k0 kadd kmul conj shape (trec K k0 k1 kadd kmul ranks fs G) (trec K k0 k1 kadd kmul ranks fs G') = tinner K k0 kadd kmul conj ranks G G'.
+Proof. exact isometry_b. Qed.
+Print Assumptions C08_tucker_reconstruction_isometry.
+(* core = projection of the data  =>  the residual X - trec core is orthogonal to EVERY tensor the factors can represent (the normal
+   equations of the least-squares problem min_G |X - trec G|: the returned core is the optimal one for the returned factors) *)
+Theorem C08_tucker_residual_orthogonal : forall (K : Type) (k0 k1 : K) (kadd kmul ksub : K -> K -> K) (kopp : K -> K),
+  ring_theory k0 k1 kadd kmul ksub kopp eq -> forall conj, is_conj kadd kmul conj -> forall shape ranks fs X H,
+  unitary_all K k0 k1 kadd kmul conj shape ranks fs ->
+  tinner K k0 kadd kmul conj shape (trec K k0 k1 kadd kmul ranks fs H)
+         (tsub K ksub X (trec K k0 k1 kadd kmul ranks fs (tproj K k0 k1 kadd kmul conj shape fs X))) = k0.
+Proof. exact residual_orthogonal_b. Qed.
+Print Assumptions C08_tucker_residual_orthogonal.
+(* <X,X> = <core,core> + <residual,residual>: the identity behind partial_tucker's rec_error = sqrt(|X|^2 - |core|^2) / |X| *)
+Theorem C08_tucker_pythagoras : forall (K : Type) (k0 k1 : K) (kadd kmul ksub : K -> K -> K) (kopp : K -> K),
+  ring_theory k0 k1 kadd kmul ksub kopp eq -> forall conj, is_conj kadd kmul conj -> forall shape ranks fs X,
+  unitary_all K k0 k1 kadd kmul conj shape ranks fs ->
+  let core := tproj K k0 k1 kadd kmul conj shape fs X in
+  let resid := tsub K ksub X (trec K k0 k1 kadd kmul ranks fs core) in
+  tinner K k0 kadd kmul conj shape X X = kadd (tinner K k0 kadd kmul conj ranks core core) (tinner K k0 kadd kmul conj shape resid resid).
+Proof. exact pythagoras_b. Qed.
+Print Assumptions C08_tucker_pythagoras.
+(* non-vacuity: R (conj = id) and C = R x R are rings with conjugation; on C the conjugation is not the identity (i * conj i = 1,
+   i * i = -1); (3/5, 4i/5) is a 2 x 1 complex factor with a unitary column that is NOT orthonormal for the unconjugated product *)
+Example C08_conj_rings_ex : is_conj Rplus Rmult (fun x : R => x) /\
+  ring_theory cx0 cx1 cxadd cxmul cxsub cxopp (@eq Cx) /\ is_conj cxadd cxmul cxconj /\
+  (cxconj cxi <> cxi /\ cxmul (cxconj cxi) cxi = cx1 /\ cxmul cxi cxi = cxopp cx1).
+Proof. exact (conj R_is_conj (conj Cx_ring (conj Cx_is_conj cxi_facts))). Qed.
+Example C08_unitary_complex_ex : unitary_all Cx cx0 cx1 cxadd cxmul cxconj [2] [1] [Uex] /\
+  bigsum Cx cx0 cxadd 2 (fun i => cxmul (Uex i 0) (Uex i 0)) <> cx1.
+Proof. exact (conj Uex_unitary Uex_not_bilinear_orthonormal). Qed.
+(* KNOWN FINDING (symeig_svd on complex input; candidate repair build/fix_candidates/C08_symeig_svd_complex.diff): the code hands M M^T
+   (plain transpose) to eigh instead of the Gram matrix M M^H, so the SVD contract assumed above is not met by svd='symeig_svd' on
+   complex data.  Witness: M = (1, i) has M M^T = 0 and M M^H = 2.  What holds: for matrices with real entries the two coincide. *)
+Theorem C08_symeig_gram_refuted : exists M : nat -> nat -> Cx, gramT 2 M 0 0 = cx0 /\ gramH 2 M 0 0 = (2%R, 0%R).
+Proof. exact symeig_gram_refuted. Qed.
+Print Assumptions C08_symeig_gram_refuted.
+Theorem C08_symeig_gram_real_partial : forall n (M : nat -> nat -> Cx), (forall a j, snd (M a j) = 0%R) -> forall a b, gramT n M a b = gramH n M a b.
+Proof. exact symeig_gram_real. Qed.
+Print Assumptions C08_symeig_gram_real_partial.
+Example C08_unitary_real_ex : unitary_all R 0%R 1%R Rplus Rmult (fun x => x) [2] [1] [Urex].
+Proof. exact Urex_unitary. Qed.
+
+(* ================================================================== tucker / partial_tucker: the HOOI loop skeleton *)
+(* St: any state space (tensor, core, factors); svd_init: the SVD initialisation; update i: factors[i] <- U of an SVD; project: core <-
+   multi_mode_dot(tensor, factors, transpose=True); impute / recon: the mask steps; decisions: the convergence test's answers (one per
+   executed sweep) -- every history is a decision sequence; n: the iteration cap; k: the number of listed modes.  The model's call log
+   (hooi_trace) is compared with the implementation's on every run. *)
+
+(* whenever the SVD initialisation is used or at least one sweep runs, the returned core is the output of the projection: for every
+   cap, every decision sequence (cap exit, convergence exit), with or without a mask *)
+Theorem C08_hooi_core_projected : forall (St : Type) (svd_init impute project recon : St -> St) (update : nat -> St -> St) (CoreProj : St -> Prop),
+  (forall s, CoreProj (project s)) -> (forall s, CoreProj s -> CoreProj (recon s)) ->
+  forall ik k mask tol_set n decisions s0, ik = InitSvd \/ 0 < n ->
+  CoreProj (hooi_run St svd_init impute project recon update ik k mask tol_set n decisions s0).
+Proof. exact hooi_run_core_projected. Qed.
+Print Assumptions C08_hooi_core_projected.
+(* ... and every listed position holds an SVD output (induction over the listed modes for the sweep, over the cap for the loop) *)
+Theorem C08_hooi_factors_from_svd : forall (St : Type) (svd_init impute project recon : St -> St) (update : nat -> St -> St) (FromSvd : nat -> St -> Prop),
+  (forall i s, FromSvd i (update i s)) -> (forall i j s, FromSvd j s -> FromSvd j (update i s)) ->
+  (forall j s, FromSvd j s -> FromSvd j (project s)) -> (forall j s, FromSvd j s -> FromSvd j (recon s)) ->
+  forall ik k mask tol_set n decisions s0, (forall i s, i < k -> FromSvd i (svd_init s)) -> ik = InitSvd \/ 0 < n ->
+  forall i, i < k -> FromSvd i (hooi_run St svd_init impute project recon update ik k mask tol_set n decisions s0).
+Proof. exact hooi_run_factors_from_svd. Qed.
+Print Assumptions C08_hooi_factors_from_svd.
+(* the hypothesis is needed: a random / user initialisation with n_iter_max = 0 is returned as it is (the core is what was drawn / given) *)
+Theorem C08_hooi_no_sweep_returns_init : forall (St : Type) (svd_init impute project recon : St -> St) (update : nat -> St -> St)
+  ik k mask tol_set decisions s0, ik <> InitSvd -> hooi_run St svd_init impute project recon update ik k mask tol_set 0 decisions s0 = s0.
+Proof. exact hooi_run_no_sweep. Qed.
+Print Assumptions C08_hooi_no_sweep_returns_init.
+(* tol falsy: exactly n_iter_max sweeps *)
+Theorem C08_hooi_tol_unset : forall (St : Type) (impute project recon : St -> St) (update : nat -> St -> St) fuel k mask it decisions s,
+  hooi_loop St impute project recon update k mask false it fuel decisions s =
+  Nat.iter fuel (fun s0 => when St mask recon (project (hooi_sweep St update k (when St mask impute s0)))) s.
+Proof. exact hooi_loop_tol_unset. Qed.
+Print Assumptions C08_hooi_tol_unset.
+(* tucker(fixed_factors=...): with a mode left to update and at least one sweep the returned core went through both projections *)
+Theorem C08_tucker_fixed_core_projected : forall (St : Type) (svd_init impute project recon : St -> St) (update : nat -> St -> St) (CoreProj : St -> Prop),
+  (forall s, CoreProj (project s)) -> (forall s, CoreProj s -> CoreProj (recon s)) ->
+  forall (absorb_fixed project_fixed : St -> St) (FullProj : St -> Prop), (forall s, CoreProj s -> FullProj (project_fixed s)) ->
+  forall n_modes n_fixed mask tol_set n decisions s0, n_fixed < n_modes -> 0 < n ->
+  FullProj (tucker_fixed_run St svd_init impute project recon update absorb_fixed project_fixed n_modes n_fixed mask tol_set n decisions s0).
+Proof. exact tucker_fixed_core_projected. Qed.
+Print Assumptions C08_tucker_fixed_core_projected.
+Theorem C08_tucker_all_fixed_returns_init : forall (St : Type) (svd_init impute project recon : St -> St) (update : nat -> St -> St)
+  (absorb_fixed project_fixed : St -> St) n_modes n_fixed mask tol_set n decisions s0, n_modes <= n_fixed ->
+  tucker_fixed_run St svd_init impute project recon update absorb_fixed project_fixed n_modes n_fixed mask tol_set n decisions s0 = s0.
+Proof. exact tucker_all_fixed. Qed.
+Print Assumptions C08_tucker_all_fixed_returns_init.
+(* the instance compared with the implementation on every run (call log of svd_interface / multi_mode_dot) *)
+Theorem C08_hooi_trace_ends_projected : forall ik k mask tol_set n decisions, ik = InitSvd \/ 0 < n ->
+  ends_projected (hooi_trace ik k mask tol_set n decisions) = true.
+Proof. exact hooi_trace_ends_projected. Qed.
+Print Assumptions C08_hooi_trace_ends_projected.
+Theorem C08_hooi_trace_factors_from_svd : forall ik k mask tol_set n decisions, ik = InitSvd \/ 0 < n ->
+  factors_from_svd k (hooi_trace ik k mask tol_set n decisions) = true.
+Proof. exact hooi_trace_factors_from_svd. Qed.
+Print Assumptions C08_hooi_trace_factors_from_svd.
+Theorem C08_hooi_trace_no_sweep : forall ik k mask tol_set decisions, ik <> InitSvd ->
+  hooi_trace ik k mask tol_set 0 decisions = [] /\ ends_projected (hooi_trace ik k mask tol_set 0 decisions) = false.
+Proof. exact hooi_trace_no_sweep. Qed.
+Print Assumptions C08_hooi_trace_no_sweep.
+(* non-vacuity: a state space on which a factor update really destroys "the core is the projection" *)
+Example C08_hooi_ghost_ex : (forall ik k mask tol_set n decisions, ik = InitSvd \/ 0 < n -> ghost_hooi ik k mask tol_set n decisions = true) /\
+  (forall ik k mask tol_set decisions, ik <> InitSvd -> ghost_hooi ik k mask tol_set 0 decisions = false).
+Proof. exact (conj ghost_hooi_projected ghost_hooi_no_sweep). Qed.
+Example C08_hooi_trace_ex : map code (hooi_trace InitSvd 2 false true 5 [false; false; true]) =
+  [100; 101; 2;  10; 100; 11; 101; 2;  10; 100; 11; 101; 2;  10; 100; 11; 101; 2].
+Proof. exact hooi_trace_ex. Qed.
+
+(* HOOI on concrete tensors over a ring with conjugation: svd0 / svdU stand for the LAPACK calls (any functions whose result has unitary
+   columns of the right shape: the SVD contract), imp for the mask imputation (any function).  For every cap, decision sequence, mask
+   setting and initialisation kind (user / random initialisations: at least one sweep and one factor per mode): the returned factors
+   have unitary columns, the returned core is X x_k U_k^H for the RETURNED factors (X: the data, when there is no mask) *)
+Theorem C08_hooi_result_canonical : forall (K : Type) (k0 k1 : K) (kadd kmul : K -> K -> K) (conj : K -> K) (shape ranks : list nat),
+  length ranks = length shape ->
+  forall (svd0 : nat -> tens K -> nat -> nat -> K) (svdU : nat -> tens K -> list (nat -> nat -> K) -> nat -> nat -> K),
+  (forall i X, i < length shape -> unitary_cols K k0 k1 kadd kmul conj (nth i shape 0) (nth i ranks 0) (svd0 i X)) ->
+  (forall i X fs, i < length shape -> unitary_cols K k0 k1 kadd kmul conj (nth i shape 0) (nth i ranks 0) (svdU i X fs)) ->
+  forall (imp : tens K -> tens K -> list (nat -> nat -> K) -> tens K) ik mask tol_set n decisions X G0 fs0,
+  ik = InitSvd \/ (0 < n /\ length fs0 = length shape) ->
+  let '(X', G', fs') := hooi_K K k0 k1 kadd kmul conj shape svd0 svdU imp ik mask tol_set n decisions X G0 fs0 in
+  unitary_all K k0 k1 kadd kmul conj shape ranks fs' /\
+  (forall jdx, G' jdx = tproj K k0 k1 kadd kmul conj shape fs' X' jdx) /\ (mask = false -> X' = X).
+Proof. exact hooi_K_canonical. Qed.
+Print Assumptions C08_hooi_result_canonical.
+Example C08_hooi_result_canonical_ex : forall i, i < length [2] -> unitary_cols Cx cx0 cx1 cxadd cxmul cxconj (nth i [2] 0) (nth i [1] 0) Uex.
+Proof. exact Uex_contract. Qed.
+(* ... hence the residual of the result is orthogonal to everything its factors can represent and the error identity of the code holds *)
+Theorem C08_hooi_result_optimal_core : forall (K : Type) (k0 k1 : K) (kadd kmul ksub : K -> K -> K) (kopp : K -> K),
+  ring_theory k0 k1 kadd kmul ksub kopp eq -> forall conj, is_conj kadd kmul conj -> forall (shape ranks : list nat),
+  length ranks = length shape ->
+  forall (svd0 : nat -> tens K -> nat -> nat -> K) (svdU : nat -> tens K -> list (nat -> nat -> K) -> nat -> nat -> K),
+  (forall i X, i < length shape -> unitary_cols K k0 k1 kadd kmul conj (nth i shape 0) (nth i ranks 0) (svd0 i X)) ->
+  (forall i X fs, i < length shape -> unitary_cols K k0 k1 kadd kmul conj (nth i shape 0) (nth i ranks 0) (svdU i X fs)) ->
+  forall (imp : tens K -> tens K -> list (nat -> nat -> K) -> tens K) ik mask tol_set n decisions X G0 fs0 H,
+  ik = InitSvd \/ (0 < n /\ length fs0 = length shape) ->
+  let '(X', G', fs') := hooi_K K k0 k1 kadd kmul conj shape svd0 svdU imp ik mask tol_set n decisions X G0 fs0 in
+  tinner K k0 kadd kmul conj shape (trec K k0 k1 kadd kmul ranks fs' H) (tsub K ksub X' (trec K k0 k1 kadd kmul ranks fs' G')) = k0 /\
+  tinner K k0 kadd kmul conj shape X' X' =
+    kadd (tinner K k0 kadd kmul conj ranks G' G')
+         (tinner K k0 kadd kmul conj shape (tsub K ksub X' (trec K k0 k1 kadd kmul ranks fs' G')) (tsub K ksub X' (trec K k0 k1 kadd kmul ranks fs' G'))).
+Proof. exact hooi_K_residual_orthogonal. Qed.
+Print Assumptions C08_hooi_result_optimal_core.
 
 (* ================================================================== canonical form over R *)
 Local Open Scope R_scope.
